@@ -9,7 +9,6 @@ Python only drives the real code and moves data:
     ordinary Simulator under seeded stimuli and records every signal's value per clock tick.
 What the emitted Verilog means is defined in specs/vlog/VerilogSem.tla and decided by TLC.
 """
-import itertools
 import random
 
 from .. import verilog_parse as vp
@@ -548,20 +547,6 @@ def _frag_group(c, pos, tname, cone, drivers, D, ini, ins, envs, rec, root):
     return {"kind": "frag", "aid": c["aid"], "pos": pos, "np": np, "mf": c["mf"], "D": {n: D[n] for n in sorted(names)}, "ins": ins,
             "items": vp.strip_lex(items), "ini": inits, "t": tname, "envs": envs, "rec": rec,
             "_unann": 1 if (pars and not np) else 0}
-
-
-def plan_batches(asts, positions, chunk=60):
-    """-> jobs for record_batch: ASTs over one variable see the 6 shapes of a, ASTs over two all 36 shape pairs"""
-    one = [(i, t) for i, t in asts if 2 not in ast_vars(t)]
-    two = [(i, t) for i, t in asts if 2 in ast_vars(t)]
-    jobs = []
-    for sa in VARSHAPES:
-        for k in range(0, len(one), chunk * 4):
-            jobs.append((sa, (1, 0), one[k:k + chunk * 4], positions, False))
-        for sb in VARSHAPES:
-            for k in range(0, len(two), chunk):
-                jobs.append((sa, sb, two[k:k + chunk], positions, True))
-    return jobs
 
 
 # ========================================================================================== layers 2 and 3
